@@ -214,4 +214,13 @@ def hashOpenPredict {K D : Type} [DecidableEq K] [DecidableEq D]
   else if c = c₀ then some false
   else none
 
+/-! ## commitment keys derived from a transcript (`ExtractCommitmentKey`) -/
+
+/-- `pedersencom.ExtractCommitmentKey`: the second generator is the hash-to-group image of the
+bytes extracted from the transcript under `label`; the first is the caller's base point.
+(`hashcom`: the key *is* the extracted byte string, `toGroup = id`, no base point.) -/
+def extractKey {T B G : Type} (extractBytes : T → String → B) (toGroup : B → G)
+    (t : T) (label : String) (g : G) : G × G :=
+  (g, toGroup (extractBytes t label))
+
 end BronVerif.Commit
